@@ -61,6 +61,11 @@ type Thread struct {
 	// functions).
 	goFunctionCallDepth int
 
+	// Message handler of the innermost CallContext the thread is running in
+	// (may be nil), only meaningful when inCallContext is true.
+	callHandler   Callable
+	inCallContext bool
+
 	// Depth of nested RunContinuation calls in the thread.  This should not
 	// exceed maxRunContinuationDepth.
 	runContinuationDepth int
@@ -128,11 +133,17 @@ func (t *Thread) RunContinuation(c Cont) (err error) {
 			}
 			err = rtErr.AddContext(c, -1)
 			errContCount++
-			if t.messageHandler != nil && (t.messageHandlerThread == nil || t.messageHandlerThread == t) {
+			// Inside a protected call of this thread its message handler (or
+			// none) applies; otherwise the one of the runtime context does.
+			handler := t.messageHandler
+			if t.inCallContext {
+				handler = t.callHandler
+			}
+			if handler != nil {
 				if errContCount > maxErrorsInMessageHandler {
 					return newHandledError(errErrorInMessageHandler)
 				}
-				next = t.messageHandler.Continuation(t, newMessageHandlerCont(c))
+				next = handler.Continuation(t, newMessageHandlerCont(c))
 			} else {
 				next = newMessageHandlerCont(c)
 			}
@@ -358,14 +369,18 @@ func (t *Thread) sendResumeValues(args []Value, err error, exception interface{}
 //
 // See quotas.md for details about this API.
 func (t *Thread) CallContext(def RuntimeContextDef, f func() error) (ctx RuntimeContext, err error) {
+	// The message handler is for errors of this thread only, so it is kept
+	// in the thread rather than in the runtime context, which all threads
+	// share: a coroutine resumed during the call delivers its errors to its
+	// resumer unhandled, and this thread keeps its handler if it yields and is
+	// resumed from within another protected call.
+	prevHandler, prevInCallContext := t.callHandler, t.inCallContext
+	t.callHandler, t.inCallContext = def.MessageHandler, true
+	def.MessageHandler = nil
 	t.PushContext(def)
-	if def.MessageHandler != nil {
-		// The handler is for errors of this thread only: a coroutine resumed
-		// while it is installed delivers its errors to its resumer unhandled.
-		t.messageHandlerThread = t
-	}
 	c, h := t.CurrentCont(), t.closeStack.size()
 	defer func() {
+		t.callHandler, t.inCallContext = prevHandler, prevInCallContext
 		ctx = t.PopContext()
 		if r := recover(); r != nil {
 			termErr, ok := r.(ContextTerminationError)
